@@ -59,5 +59,12 @@ ClockAgrees == Ev.e = "step" => (Ev.clockMs * Tk = 1000 * (clockSec + dt) /\ Ev.
 Done == i > 0 /\ l = Len(Tr[i].ev)
 RowsAgree == Done => /\ [j \in DOMAIN Tr[i].rows |-> Tr[i].rows[j] * Tk] = [j \in 1..(k + 1) |-> 1000 * (j - 1) * dt]
                      /\ Tr[i].epochRowsOk = 1
+\* the table of epochs of the database (read with plain SQL; Julian date and timestamp of every row
+\* judged by the driver against Calendar.tla): start + j*dt for j = 0..max(floor(span/dt), k), where
+\* span is the configured time span (ticks), not necessarily a whole multiple of the step
+TMax(a, b) == IF a > b THEN a ELSE b
+TableAgrees == Done => /\ [j \in DOMAIN Tr[i].table |-> Tr[i].table[j] * Tk]
+                            = [j \in 1..(TMax(Tr[i].span \div dt, k) + 1) |-> 1000 * (j - 1) * dt]
+                       /\ Tr[i].tableJdOk = 1
 Accepted == Done => PrintT(<<"ACCEPTED", i>>)
 =============================================================================
